@@ -113,7 +113,8 @@ import l2
 from gen import Gen
 
 POSITIONS = ["field", "vec", "option", "hashmap-value", "array", "slice", "generic-arg", "nested-generic", "box",
-             "tuple-variant", "struct-variant-field", "alias-target", "alias-vec", "unknown-generic", "same-head-nested", "pair-with-own-param"]
+             "tuple-variant", "struct-variant-field", "alias-target", "alias-vec", "unknown-generic", "same-head-nested", "pair-with-own-param",
+             "hashmap-key", "hashmap-key-nested", "pair-first", "option-vec-map"]
 # positions `get_dependencies` does not look into (open known finding `uncovered-reference-positions`)
 ORDER_LANGS = ["typescript", "python", "kotlin", "swift", "go"]
 
@@ -144,6 +145,14 @@ def ref_type(pos, target):
         return t_path("Pair", [t_path("T"), t])          # the referring struct is generic over T
     if pos == "box":
         return t_path("Box", [t])
+    if pos == "hashmap-key":
+        return t_path("HashMap", [t, t_path("u32")])     # the only mention is the key type
+    if pos == "hashmap-key-nested":
+        return t_path("Option", [t_path("HashMap", [t_path("String"), t_path("HashMap", [t, t_path("bool")])])])
+    if pos == "pair-first":
+        return t_path("Pair", [t, t_path("u8")])          # the first of two generic arguments
+    if pos == "option-vec-map":
+        return t_path("Option", [t_path("Vec", [t_path("HashMap", [t_path("String"), t_path("Vec", [t])])])])
     raise ValueError(pos)
 
 
